@@ -137,7 +137,9 @@ def main():
                 print("REJECT: demo fails with the patch although the change is claimed to be behaviour-preserving\n" + out[-1500:])
                 return 1
             # demos print a digest of everything they observed; timing lines may differ from run to run, so the digest lines are compared when there are any
-            dig = lambda o: [l for l in o.splitlines() if "digest" in l.lower()]
+            import re as _re
+
+            dig = lambda o: [_re.sub(r"\b\d+(\.\d+)?\s*m?s\b", "<t>", l) for l in o.splitlines() if "digest" in l.lower()]
             same = (dig(out) == dig(pristine_out)) if dig(pristine_out) else out == pristine_out
             ran.append("demo output with patch %s the output on the pristine tree" % ("equals" if same else "DIFFERS from"))
             if not same:
